@@ -110,7 +110,7 @@ def main():
         })
     m = {
         "version": 1,
-        "setup_cmd": "cd /verif/harness && CARGO_NET_OFFLINE=true cargo build --offline -q -p explorer --release && CARGO_NET_OFFLINE=true cargo build --offline -q -p runner && CARGO_NET_OFFLINE=true cargo build --offline -q -p runner --release",
+        "setup_cmd": "cd /verif/harness && CARGO_NET_OFFLINE=true cargo build --offline -q -p explorer --release && CARGO_NET_OFFLINE=true cargo build --offline -q -p runner && CARGO_NET_OFFLINE=true cargo build --offline -q -p runner --release && cd /verif && VERIF_BUILD_ONLY=1 ./check C10 quick",
         "hooks": {
             "guard": "cargo feature `verif_hooks` of the yarel crate (off by default)",
             "enable": "the runner crate depends on /repo/yarel with features=[\"verif_hooks\"]; every check runs `cargo build` of the runner first, which rebuilds yarel from /repo's working tree",
